@@ -80,6 +80,16 @@ func (l *Log) Reset() {
 	l.evs = nil
 }
 
+// Flush writes buffered events to the file.
+func (l *Log) Flush() {
+	if l == nil || l.w == nil {
+		return
+	}
+	l.mu.Lock()
+	l.w.Flush()
+	l.mu.Unlock()
+}
+
 func (l *Log) Close() error {
 	if l == nil || l.w == nil {
 		return nil
@@ -110,6 +120,8 @@ type Fault struct {
 	Kind string `json:"kind"`
 	seen int
 	Hit  bool `json:"-"`
+	// HitAt is the "layer.call" the fault actually fired on.
+	HitAt string `json:"-"`
 }
 
 // Plan is shared by all gates of one run.
@@ -122,8 +134,9 @@ type Plan struct {
 	Sched    *Scheduler
 	// Jitter > 0: seeded yields/sleeps at every lower call (C14).
 	Jitter func()
-	// Mute suppresses counting/faulting (used by harness observations).
-	mute int
+	// RecordSeq: remember "layer.call" of every lower-layer call in SeqLog.
+	RecordSeq bool
+	SeqLog    []string
 }
 
 func NewPlan() *Plan { return &Plan{} }
@@ -132,6 +145,39 @@ func (p *Plan) Calls() int {
 	p.mu.Lock()
 	defer p.mu.Unlock()
 	return p.calls
+}
+
+// HitCount returns how many faults have fired so far.
+func (p *Plan) HitCount() int {
+	p.mu.Lock()
+	defer p.mu.Unlock()
+	n := 0
+	for _, f := range p.Faults {
+		if f.Hit {
+			n++
+		}
+	}
+	return n
+}
+
+// HitCalls lists where the fired faults actually hit ("layer.call:kind").
+func (p *Plan) HitCalls() []string {
+	p.mu.Lock()
+	defer p.mu.Unlock()
+	var out []string
+	for _, f := range p.Faults {
+		if f.Hit {
+			out = append(out, f.HitAt+":"+f.Kind)
+		}
+	}
+	return out
+}
+
+// Seq returns a copy of the recorded call sequence.
+func (p *Plan) Seq() []string {
+	p.mu.Lock()
+	defer p.mu.Unlock()
+	return append([]string(nil), p.SeqLog...)
 }
 
 func (p *Plan) Frozen() bool {
@@ -159,6 +205,9 @@ func (p *Plan) enter(layer, call string, mutating bool) (n int, kind string, fro
 	}
 	p.calls++
 	n = p.calls
+	if p.RecordSeq {
+		p.SeqLog = append(p.SeqLog, layer+"."+call)
+	}
 	if p.FreezeAt > 0 && n >= p.FreezeAt {
 		p.frozen = true
 		p.mu.Unlock()
@@ -172,6 +221,7 @@ func (p *Plan) enter(layer, call string, mutating bool) (n int, kind string, fro
 			f.seen++
 			if f.seen == f.N {
 				f.Hit = true
+				f.HitAt = layer + "." + call
 				kind = f.Kind
 				break
 			}
